@@ -2,6 +2,61 @@
 
 package srt
 
+import (
+	"fmt"
+	"net"
+
+	srt "github.com/datarhei/gosrt"
+
+	"github.com/bluenviron/mediamtx/internal/defs"
+	"github.com/bluenviron/mediamtx/internal/test"
+)
+
+type verifC35Req struct {
+	id       string
+	rejected bool
+}
+
+func (r *verifC35Req) RemoteAddr() net.Addr                   { return &net.UDPAddr{IP: net.IPv4(127, 0, 0, 1), Port: 9} }
+func (r *verifC35Req) Version() uint32                        { return 5 }
+func (r *verifC35Req) StreamId() string                       { return r.id }
+func (r *verifC35Req) SocketId() uint32                       { return 1 }
+func (r *verifC35Req) PeerSocketId() uint32                   { return 2 }
+func (r *verifC35Req) IsEncrypted() bool                      { return false }
+func (r *verifC35Req) SetPassphrase(string) error             { return nil }
+func (r *verifC35Req) SetRejectionReason(srt.RejectionReason) {}
+func (r *verifC35Req) Accept() (srt.Conn, error)              { return nil, fmt.Errorf("verif") }
+func (r *verifC35Req) Reject(srt.RejectionReason)             { r.rejected = true }
+
+type verifC35PM struct{ req *defs.PathAccessRequest }
+
+func (p *verifC35PM) FindPathConf(req defs.PathFindPathConfReq) (*defs.PathFindPathConfRes, error) {
+	p.req = &req.AccessRequest
+	return nil, fmt.Errorf("verif")
+}
+
+func (p *verifC35PM) AddPublisher(defs.PathAddPublisherReq) (*defs.PathAddPublisherRes, error) {
+	return nil, fmt.Errorf("verif")
+}
+
+func (p *verifC35PM) AddReader(req defs.PathAddReaderReq) (*defs.PathAddReaderRes, error) {
+	p.req = &req.AccessRequest
+	return nil, fmt.Errorf("verif")
+}
+
+// VerifC35Conn runs the real conn.runInner on a connection request carrying the given stream id and
+// returns the access request handed to the path manager (nil = rejected before reaching it).
+func VerifC35Conn(raw string) *defs.PathAccessRequest {
+	pm := &verifC35PM{}
+	c := &conn{
+		connReq:     &verifC35Req{id: raw},
+		pathManager: pm,
+		parent:      &Server{Parent: test.NilLogger},
+	}
+	c.runInner() //nolint:errcheck
+	return pm.req
+}
+
 // VerifC35StreamID runs the unexported stream-id parser.
 func VerifC35StreamID(raw string) (ok bool, publish bool, path, query, user, pass string) {
 	var s streamID
